@@ -132,3 +132,38 @@ def shrink_case(case, bucket, F, check, budget=350):
         if r and r[0] == bucket:
             case = c2
     return case
+
+
+def confuse_rows(term, rows, seed):
+    """Targeted data for LIKE-based functions: put strings derived from the literal needles of
+    contains/startswith/endswith into the string columns of some rows, both true matches (needle
+    embedded verbatim) and near misses that only a mis-escaped pattern would match (% replaced by
+    arbitrary text, _ by one character, escape characters dropped)."""
+    import random
+    needles = [x[3][1][2] for x in walk(term)
+               if x[0] == "call" and x[1] in ("contains", "startswith", "endswith") and x[3][1][0] == "lit"]
+    needles = [n for n in needles if n]
+    if not needles:
+        return rows
+    r = random.Random(seed)
+    rows = [dict(x) for x in rows]
+    for row in rows:
+        if r.random() < 0.6:
+            n = r.choice(needles)
+            k = r.randrange(7)
+            if k == 0:
+                v = n
+            elif k == 1:
+                v = r.choice(["", "a", "zz"]) + n + r.choice(["", "b", "zz"])
+            elif k == 2:
+                v = n.replace("%", r.choice(["xy", "", "a%"]))
+            elif k == 3:
+                v = n.replace("_", r.choice(["q", "ab", ""]))
+            elif k == 4:
+                v = n.replace("\\", "")
+            elif k == 5:
+                v = n.replace("\\", "\\\\")
+            else:
+                v = n.replace("%", "xy").replace("_", "q").replace("\\", "")
+            row[r.choice(["s1", "s2"])] = v
+    return rows
